@@ -119,8 +119,9 @@ func (env *SpecEnv) modTargets(exprs []*SExpr) (out []modTarget) {
 					env.fail("elems() of non-slice")
 				}
 				et := x.T.Underlying().(*types.Slice).Elem()
-				for k, srt := range famKeysFor("E", et, "", et) {
-					out = append(out, modTarget{key: k, sort: srt, idx: s.Base})
+				fams := famKeysFor("E", et, "", et)
+				for _, k := range sortedKeys(fams) {
+					out = append(out, modTarget{key: k, sort: fams[k], idx: s.Base})
 				}
 			case m.Kind == SCall && m.X.Kind == SIdent && m.X.Name == "map":
 				x := env.eval(m.Args[0])
@@ -129,8 +130,9 @@ func (env *SpecEnv) modTargets(exprs []*SExpr) (out []modTarget) {
 					env.fail("map() of non-map")
 				}
 				r := env.scalar(x)
-				for k, srt := range mapFamKeys(mt) {
-					out = append(out, modTarget{key: k, sort: srt, idx: r})
+				fams := mapFamKeys(mt)
+				for _, k := range sortedKeys(fams) {
+					out = append(out, modTarget{key: k, sort: fams[k], idx: r})
 				}
 			case m.Kind == SCall && m.X.Kind == SIdent && m.X.Name == "all":
 				x := env.eval(m.Args[0])
@@ -144,8 +146,9 @@ func (env *SpecEnv) modTargets(exprs []*SExpr) (out []modTarget) {
 				if p.Kind == PCell {
 					kind = "C"
 				}
-				for k, srt := range famKeysFor(kind, p.Root, sub, bt) {
-					out = append(out, modTarget{key: k, sort: srt, idx: p.Base})
+				fams := famKeysFor(kind, p.Root, sub, bt)
+				for _, k := range sortedKeys(fams) {
+					out = append(out, modTarget{key: k, sort: fams[k], idx: p.Base})
 				}
 				// ghost fields of the type
 				for _, g := range vc.eng.ghostsOf(bt) {
@@ -190,8 +193,9 @@ func (env *SpecEnv) modTargets(exprs []*SExpr) (out []modTarget) {
 				q := p.extend(path[0])
 				_, sub := subPath(q.Root, q.Path)
 				kind := "F"
-				for k, srt := range famKeysFor(kind, q.Root, sub, ft) {
-					out = append(out, modTarget{key: k, sort: srt, idx: q.Base})
+				fams := famKeysFor(kind, q.Root, sub, ft)
+				for _, k := range sortedKeys(fams) {
+					out = append(out, modTarget{key: k, sort: fams[k], idx: q.Base})
 				}
 			default:
 				env.fail("unsupported modifies target %s", m.String())
@@ -250,7 +254,7 @@ func (vc *VC) symbolicArgs(fn *ssa.Function, st *State) (args []Val, bind []Val)
 	}
 	for _, fv := range fn.FreeVars {
 		r := vc.fresh("fv$"+fv.Name(), SRef)
-		vc.assume(st, mkAnd(mkNeq(r, tNull), mkSelect(vc.allocArr(st), r)))
+		vc.assume(st, mkAnd(mkNeq(r, tNull), vc.allocatedIn(st, r)))
 		bind = append(bind, &VS{r})
 	}
 	return
@@ -273,7 +277,10 @@ func (fr *Frame) contractCall(fn *ssa.Function, fc *FuncContract, args []Val, bi
 	pre := st.clone()
 	if fc.HasMod || fc.Extern || fc.Pure {
 		ts := env.modTargets(fc.Modifies)
+		vc.suppressTouch = true
 		vc.havocTargets(st, ts)
+		vc.suppressTouch = false
+		vc.framePreds(pre, st, ts)
 		if !fc.Pure {
 			vc.growAlloc(st)
 		}
@@ -292,7 +299,11 @@ func (fr *Frame) contractCall(fn *ssa.Function, fc *FuncContract, args []Val, bi
 	}
 	post := vc.paramEnv(fn, fc, args, bind, st, pre)
 	bindResults(post, sig, results)
+	samePkg := vc.root != nil && fnPkgPath(vc.root) == fnPkgPath(fn)
 	for _, c := range fc.Ensures {
+		if c.Local && !samePkg {
+			continue
+		}
 		vc.assume(st, post.clause(c))
 	}
 	for _, c := range fc.Trusts {
@@ -409,7 +420,33 @@ func (e *Engine) verifyFunc(fn *ssa.Function, fc *FuncContract, sweepProps []str
 	if res == nil {
 		return vc
 	}
-	if fc != nil {
+	if fc == nil {
+		return vc
+	}
+	// postconditions are checked at every return separately (no case split over merged exits); with many
+	// returns the merged exit state is used instead
+	type exitPoint struct {
+		st      *State
+		results []Val
+		suffix  string
+	}
+	var points []exitPoint
+	if len(res.exits) > 1 && len(res.exits) <= 12 {
+		for i, e := range res.exits {
+			points = append(points, exitPoint{e.st, e.results, fmt.Sprintf("@ret%d", i+1)})
+		}
+	} else {
+		points = []exitPoint{{res.st, res.results, ""}}
+	}
+	for _, pt := range points {
+		vc.exitObligations(fn, fc, args, bind, pt.st, pt.results, pt.suffix)
+	}
+	return vc
+}
+
+func (vc *VC) exitObligations(fn *ssa.Function, fc *FuncContract, args, bind []Val, st *State, results []Val, suffix string) {
+	res := &execResult{st: st, results: results}
+	{
 		// ghost updates (performed at exit)
 		for _, g := range fc.Ghost {
 			genv := vc.paramEnv(fn, fc, args, bind, res.st, vc.entry)
@@ -438,16 +475,15 @@ func (e *Engine) verifyFunc(fn *ssa.Function, fc *FuncContract, sweepProps []str
 		bindResults(post, fn.Signature, res.results)
 		for _, c := range fc.Ensures {
 			g := post.clause(c)
-			vc.oblige(res.st, "ensures", vc.oname(c.Name), vc.pos(fn.Pos()), "postcondition: "+c.Src, g, c.Props)
+			vc.oblige(res.st, "ensures", vc.oname(c.Name+suffix), vc.pos(fn.Pos()), "postcondition: "+c.Src, g, c.Props)
 			// later postconditions may use earlier ones as lemmas (each is still proved on its own)
 			vc.assume(res.st, g)
 		}
 		if fc.HasMod {
 			pre := vc.paramEnv(fn, fc, args, bind, vc.entry, vc.entry)
-			vc.frameObligations(res.st, pre.modTargets(fc.Modifies))
+			vc.frameObligations(res.st, pre.modTargets(fc.Modifies), suffix)
 		}
 	}
-	return vc
 }
 
 // assumeWired: v (of type t) is non-nil and so are the reference-typed fields reachable from it (depth levels
@@ -500,8 +536,7 @@ func (vc *VC) wiredFields(st *State, p *VPtr, t types.Type, depth int, seen map[
 	}
 }
 
-func (vc *VC) frameObligations(fin *State, ts []modTarget) {
-	alloc0 := vc.allocArr(vc.entry)
+func (vc *VC) frameObligations(fin *State, ts []modTarget, suffix string) {
 	for _, k := range sortedKeys(fin.heap) {
 		if strings.HasPrefix(k, "$") {
 			continue
@@ -534,12 +569,12 @@ func (vc *VC) frameObligations(fin *State, ts []modTarget) {
 			goal = mkEq(cur, init)
 		} else {
 			r := mkVar("r!", SRef)
-			conds := []*Term{mkSelect(alloc0, r)}
+			conds := []*Term{vc.allocatedIn(vc.entry, r)}
 			for _, i := range idxs {
 				conds = append(conds, mkNeq(r, i))
 			}
 			goal = mkForall([]*Term{r}, mkImplies(mkAnd(conds...), mkEq(mkSelect(cur, r), mkSelect(init, r))), []*Term{mkSelect(cur, r)})
 		}
-		vc.oblige(fin, "frame", vc.oname("frame."+sanitize(k)), vc.pos(vc.root.Pos()), "only the declared footprint is modified (family "+k+")", goal, nil)
+		vc.oblige(fin, "frame", vc.oname("frame."+sanitize(k)+suffix), vc.pos(vc.root.Pos()), "only the declared footprint is modified (family "+k+")", goal, nil)
 	}
 }
